@@ -41,6 +41,19 @@ impl RawT {
 //@ end
 }
 
+// ---------------- comment ----------------
+pub struct Comment;
+impl Comment {
+//@ item crates/lib/src/stdlib/blocks/comment_block.rs :: impl Renderable for Comment::render_to
+//@ props C10 C02
+//@ sig fn render_to(&self, _writer: &mut Sink, _runtime: &dyn Runtime) -> (r: Result<()>)
+//@ spec
+    requires !old(_writer).failed@,
+    ensures
+        r is Ok, final(_writer).log@ == old(_writer).log@, !final(_writer).failed@,                // [C10:comment_writes_nothing]
+//@ end
+}
+
 // ---------------- increment / decrement ----------------
 pub struct Increment { pub id: KString }
 pub struct Decrement { pub id: KString }
